@@ -53,8 +53,8 @@ class World:
                         ev.append(("op2", i, j))
         for i in range(len(self.ten)):
             ev += [("toggle", i, True), ("toggle", i, False), ("retain", i), ("bw", i)]
-            if self.m[i]["rg"]:
-                ev.append(("bwbad", i))      # a backward call that fails (upstream gradient of the wrong shape)
+            if self.m[i]["rg"] and (THOROUGH or i in (0, len(self.ten) - 1)):
+                ev.append(("bwbad", i))      # a backward call that fails (upstream gradient of the wrong shape); quick: first / newest tensor
         return ev
 
     def _new_model(self, rg, nonleaf, fl, parents=(), origin="ctor"):
